@@ -77,6 +77,15 @@ Theorem C14_listing_is_live_refuted :
 Proof. exact listing_is_live_refuted. Qed.
 Print Assumptions C14_listing_is_live_refuted.
 
+(* ... whereas for SEQUENTIAL histories (one push / delete at a time, no failure) the index
+   lists exactly the live referrers, whatever the pre-existing duplicates / empty entries
+   (function-level statement about applyReferrerChanges between the manifest PUT / DELETE;
+   for concurrent operations on DIFFERENT manifests the clause is judged by the oracle) *)
+Theorem C14_sequential_listing_is_live_partial : forall cs st,
+  changes_nonempty cs -> tracks st -> tracks (fold_left seq_op cs st).
+Proof. exact sequential_listing_is_live. Qed.
+Print Assumptions C14_sequential_listing_is_live_partial.
+
 (* the protocol never blocks by itself: in every reachable state in which some caller
    is inside updateReferrersIndex some event other than a new call is enabled (a caller can assign, a waiting
    member can take the main status, the main caller's next lock region / exchange can
@@ -277,3 +286,8 @@ Example delivery_ex :
   | None => False
   end.
 Proof. vm_compute. repeat split. Qed.
+
+Example tracks_ex : tracks (None, []) /\
+  fold_left seq_op [Add dA; Add dB; Remove dA; Add dC] (None, []) = (Some [dB; dC], [3; 2]) /\
+  forallb (fun k => Bool.eqb (memb (Some [dB; dC]) k) (negb (k =? 0) && existsb (N.eqb k) [3; 2])) [0; 1; 2; 3; 4] = true.
+Proof. split; [intro k; reflexivity|split; vm_compute; reflexivity]. Qed.
